@@ -30,7 +30,12 @@ def cfCall (toks : List String) : Option (String × (Scratch.St → Option Scrat
       | some a, some b =>
         let f := flags.toList
         let fold := f.contains 'f'; let coll := f.contains 'c'
-        some (toString (Compare.compare fold coll (f.contains 'r') (locOf loc) a b),
+        -- without fold / collation the C code runs a byte loop: that loop is what is executed here
+        -- (Props/C13 `plain_compare_is_codepoint_order`: it decides as the code point comparison)
+        let plain : Option Int := if !fold && !coll then
+            (Compare.cmpBytes b1 b2 (b1.length + 1)).map fun r => let s := Compare.sgn r; if f.contains 'r' then -s else s
+          else none
+        some (toString (plain.getD (Compare.compare fold coll (f.contains 'r') (locOf loc) a b)),
           fun st => if fold || coll then Scratch.compareScript st fold (locOf loc) a b b1.length b2.length else some st)
       | _, _ => none
     | _, _ => none
